@@ -80,6 +80,46 @@ Section Series.
   Definition scompose (N : nat) (env : list series) (p : @poly F) : series :=
     fold_right (fun m acc => sadd N (smono N env m) acc) (sconst N 0) p.
 
+  (* ---------------------------------------- polynomial arithmetic (data) *)
+  Fixpoint exps_cmp (a b : list nat) : comparison :=
+    match a, b with
+    | [], [] => Eq
+    | [], _ :: _ => Lt
+    | _ :: _, [] => Gt
+    | x :: a', y :: b' =>
+      match Nat.compare x y with Eq => exps_cmp a' b' | c => c end
+    end.
+
+  (* merge of two (sorted) monomial lists, combining equal exponent vectors and
+     dropping zero coefficients; semantically an addition for ANY two lists *)
+  Fixpoint padd (p : @poly F) : @poly F -> @poly F :=
+    fix aux (q : @poly F) : @poly F :=
+      match p, q with
+      | [], _ => q
+      | _, [] => p
+      | (c, e) :: p', (c', e') :: q' =>
+        match exps_cmp e e' with
+        | Lt => (c, e) :: padd p' q
+        | Gt => (c', e') :: aux q'
+        | Eq => let s := c + c' in
+                if feqb s 0 then padd p' q' else (s, e) :: padd p' q'
+        end
+      end.
+
+  Fixpoint eadd (a b : list nat) : list nat :=
+    match a, b with
+    | [], _ => b
+    | _, [] => a
+    | x :: a', y :: b' => (x + y)%nat :: eadd a' b'
+    end.
+  Definition pmul_mono (m : @mono F) (p : @poly F) : poly :=
+    map (fun m' => (fst m * fst m', eadd (snd m) (snd m'))) p.
+  Definition pmul (p q : @poly F) : @poly F :=
+    fold_right (fun m acc => padd (pmul_mono m q) acc) [] p.
+  (* the variable x_i among nvars variables *)
+  Definition pvar (nvars i : nat) : @poly F :=
+    [(1, map (fun j => if Nat.eqb i j then 1%nat else 0%nat) (seq 0 nvars))].
+
   (* ---------------------------- derivatives <-> normalised coefficients *)
   (* derivatives (u, u', u'', ...) -> (u, u'/1!, u''/2!, ...) and back *)
   Definition to_norm (ds : list F) : series :=
